@@ -45,7 +45,13 @@ fn main() {
         "C02" => props::c02::run(&report, &tier),
         "C07" => props::c07::run(&report, &tier),
         "C11" => props::c11::run(&report, &tier),
+        "C13" => props::c13::run(&report, &tier),
+        "C19" => props::c19::run(&report, &tier),
         "C16" => props::c16::run(&report, &tier),
+        "lab2" => {
+            props::lab2();
+            return;
+        }
         "lab" => {
             props::lab();
             return;
